@@ -52,7 +52,7 @@ static void mk_vwo(struct VWO* v)
   unsigned off = nondet_unsigned();
   __CPROVER_assume(off <= cap - len);
   int start = nondet_int();
-  __CPROVER_assume(start > -VWO_MAXIDX && start < VWO_MAXIDX);
+  __CPROVER_assume(start > -VWO_MAXIDX && start < VWO_MAXIDX && (long)start + (long)len <= VWO_MAXIDX);
   if (len == 0) { start = 0; off = 0; }
   v->begin_allocated_memory = buf;
   v->end_allocated_memory = buf + cap;
@@ -121,6 +121,6 @@ static void mk_two(T** p, T** q, long* n)
   *p = (T*)malloc((size_t)(len + 1) * sizeof(T));
   *q = (T*)malloc((size_t)(len + 1) * sizeof(T));
 }
-void h_K_std_copy(void) { T *p, *q; long n; mk_two(&p, &q, &n); long k = nondet_long(); __CPROVER_assume(k >= -1 && k <= n); g_p_ = nondet_bool() ? (const void*)(p + k) : (const void*)(q + k); K_std_copy(p, p + n, q); }
+void h_K_std_copy(void) { T *p, *q; long n; mk_two(&p, &q, &n); long k = nondet_long(); __CPROVER_assume(k >= -1 && k <= n); K_std_copy(p, p + n, q, nondet_bool() ? (p + k) : (q + k)); }
 void h_K_std_fill(void) { T *p, *q; long n; mk_two(&p, &q, &n); g_j = nondet_int(); K_std_fill(p, p + n, q[0]); }
 void h_K_std_equal(void) { T *p, *q; long n; mk_two(&p, &q, &n); g_j = nondet_int(); K_std_equal(p, p + n, q); }
